@@ -330,3 +330,8 @@ BOUNDS = {
 }
 OUTSIDE = ["invalid parameters (batched n<1: the tool refuses before taking ownership)", "chain.from_iterable owns only the iterables already fetched from the outer iterable (documented)", "generator-based tools that were never advanced (the property's obligation starts with the first advance)", "sources without aclose (nothing to release)", "lengths above the bound"]
 NONTRIVIAL_RULE = ">=2 source items and >=1 item taken (fault modes: the fault was delivered)"
+
+MANIFEST = {
+    "text": 'Fault enumeration by symbolic execution: number of items taken before closing, fault position and kind, consumer athrow, exhaustion; instrumented async-generator and class-based sources (also with suspending aclose) must be closed or exhausted when the close/raise/exhaustion completes; tee closing orders, groupby, aggregations failing in +, hash, unpacking and comparison. Nothing is claimed outside the bounds listed in the evidence file.',
+    "note": 'Trusted: CrossHair 0.0.110 (with short-circuiting off and a refined callable() model), z3 5.1.0, the harness oracles. Release predicate: generator finished/closed or aclose called/exhausted. One open known finding (tee child closed before ever advanced).',
+}
